@@ -1,1 +1,48 @@
-(* C11 — theorems: see stream model (work in progress) *)
+(* C11 — block-range decoding returns exactly the requested slice.
+   Reader model (Model/Reader.v: Read / processBlock / the batch of decoding tasks with from/to),
+   for EVERY data, block size, job count, size hint, range and sequence of Read lengths:
+   (1) the caller receives exactly the bytes of blocks from..to-1 (block k = bytes (k-1)*B .. k*B-1),
+       each Read filled completely, then end-of-stream - empty ranges, ranges beyond the last block,
+       absent bounds (0) and batches made only of skipped blocks included;
+   (2) what the blocks outside the range would decode to is never looked at: a stream whose
+       out-of-range blocks are undecodable gives the same result. *)
+From Coq Require Import List NArith ZArith Lia.
+From KV Require Import Model.Writer Model.Reader Proofs.ReaderProofs Proofs.ReaderGen.
+Import ListNotations.
+Open Scope N_scope.
+
+(* the slice, spelled out: bytes (from-1)*B .. (to-1)*B-1 of the data (to = 0: up to the end) *)
+Definition slice_of (B from to : N) (data : list N) : list N :=
+  let lo := ((N.to_nat from - 1) * N.to_nat B)%nat in
+  let hi := if to =? 0 then length data else ((N.to_nat to - 1) * N.to_nat B)%nat in
+  firstn (hi - lo) (skipn lo data).
+
+Lemma slice_of_range B from to data : range_bytes B from to data = slice_of B from to data.
+Proof. unfold range_bytes, range_bytes_at, slice_of. rewrite !Nat.sub_0_r. reflexivity. Qed.
+Print Assumptions slice_of_range.
+
+Theorem C11_range_exact : forall B jobs hint from to data ns, 0 < B -> 0 < jobs ->
+  fst (do_reads_g B jobs hint from to (init_r (map FData (chunks B data) ++ [FEnd])) ns) =
+  spec_reads (slice_of B from to data) ns.
+Proof.
+  intros B jobs hint from to data ns HB HJ. rewrite <- slice_of_range.
+  apply (reader_range B jobs hint from to HB HJ data (map FData (chunks B data)) [] ns).
+  - apply dmg_same.
+  - apply clean_valid. apply (chunks_wsz B jobs HB HJ (length data)). lia.
+Qed.
+Print Assumptions C11_range_exact.
+
+Theorem C11_blocks_outside_the_range_are_not_looked_at : forall B jobs hint from to data dfr rest ns, 0 < B -> 0 < jobs ->
+  dmg dfr (chunks B data) -> clean B from to 0 dfr ->
+  fst (do_reads_g B jobs hint from to (init_r (dfr ++ FEnd :: rest)) ns) = spec_reads (slice_of B from to data) ns.
+Proof.
+  intros B jobs hint from to data dfr rest ns HB HJ Hd Hc. rewrite <- slice_of_range.
+  apply (reader_range B jobs hint from to HB HJ data dfr rest ns Hd Hc).
+Qed.
+Print Assumptions C11_blocks_outside_the_range_are_not_looked_at.
+
+(* the premises are satisfiable and the statement is not trivial: 10 bytes, B = 4, range [2,3), a damaged block 3 *)
+Example C11_instance :
+  fst (do_reads_g 4 3 0 2 3 (init_r ([FData [1;2;3;4]; FData [5;6;7;8]; FFail] ++ [FEnd])) [3; 5; 1]) =
+  [([5;6;7], RNil); ([8], RNil); ([], REOF)].
+Proof. vm_compute. reflexivity. Qed.
